@@ -293,11 +293,17 @@ def run(ctx):
                 "simulated elsewhere), measurements, frees, stops in random order, counts incl. the register counter back at zero after every generation; "
                 "pair creations that cannot be completed (receiver full; room / register for one more qubit or none; measure-directly; creator "
                 "holding other qubits; over the real PB) and successful ones: error reply, node counts after the failed request and after StopApp as "
-                "before, Coq decides model = implementation per message incl. the removal of the temporaries (Qasm/EprCases.v); "
+                "before, Coq decides model = implementation per message incl. the removal of the temporaries (Qasm/EprCases.v); measure-directly "
+                "requests of one pair with the creator's two basis choices forced through the seeded generator (all nine pairs, basis sets NONE/XZ/XYZ, "
+                "weights written into the request array) and scripted coins, alone or with a create-and-keep request before / after on the same "
+                "sockets (one deque), claimed at once or late: native calls, dumps, bookkeeping, deques and both ReturnArray records compared with the model; "
                 "distinct = distinct (capacities, message, coins)")
     ctx.trusted.append("harness/qasm_eprfail.py: maps the tap records get_virt_num + netqasm_send_epr_half to Model V's OSend (the handle is the one "
                        "get_virt_num was called on, an accepted hand-over is recorded as OkNone), and the SDK's Qubit() / measure() to "
-                       "QAlloc+QInit / QMeas+QFree; the receive deques are read from virtualNode.qubit_recv_epr")
+                       "QAlloc+QInit / QMeas+QFree; the receive deques are read from virtualNode.qubit_recv_epr; for measure-directly requests it "
+                       "replicates _sample_basis_choice's use of random.choices to find the generator seed that yields the wanted bases, skips the tap record "
+                       "netqasm_send_epr_half(None, ..) (compared through the deque dump) and reads the records from ReturnArray messages of 10 defined "
+                       "values whose type field is OK_M")
     common.check_properties_file(ctx)
     logging.disable(logging.CRITICAL)
     env = N.setup()
@@ -401,13 +407,26 @@ def run(ctx):
         ctx.count("pair_creation_over_real_PB", 1 if sc["pb"] else 0)
         ctx.count("pair_creation_creator_holds_other_qubits", 1 if sc["pre"] else 0)
         ctx.count("pair_creation_measure_directly", 1 if sc["type"] == "M" else 0)
+        if sc["kind"] == "ok" and "M" in (sc["type"], sc.get("then")):
+            ctx.count("md_pair_ok")
+            ctx.count("md_pair_bases_" + sc["md"]["bases"])
+            ctx.count("md_pair_sets_%s_%s" % tuple(sc["md"]["rb"]))
+            ctx.count("md_pair_with_keep_request_in_the_same_deque", 1 if sc.get("then") else 0)
+            ctx.count("md_pair_distinct_socket_ids", 1 if sc["socks"][0] != sc["socks"][1] else 0)
+            ctx.count("md_pair_over_real_PB", 1 if sc["pb"] else 0)
+        if sc["kind"] != "ok" and sc["type"] == "M" and sc["kind"] != "md-rotation":
+            ctx.count("md_pair_failing_modelled")
         ctx.count("pair_creation_cleanup_measurements",
-                  sum(1 for m in r["records"] if m["role"] == "create" for c in m["calls"] if c["method"] == "measure"))
+                  sum(1 for m in r["records"] if m["role"] == "create" and sc["kind"] != "ok" for c in m["calls"] if c["method"] == "measure"))
+        ctx.count("md_pair_destructive_measurements",
+                  sum(1 for m in r["records"] if m["role"].startswith("create") and m.get("type") == "M" and sc["kind"] == "ok" for c in m["calls"] if c["method"] == "measure"))
         ctx.case(("pair-creation", str(sorted(sc.items()))), nontrivial=True)
     need_k = ["pair_creation_receiver_full", "pair_creation_room_for_one", "pair_creation_register_for_one", "pair_creation_room_for_none",
-              "pair_creation_not_adjacent", "pair_creation_md_rotation", "pair_creation_ok", "pair_creation_creator_holds_other_qubits", "pair_creation_measure_directly"]
+              "pair_creation_not_adjacent", "pair_creation_md_rotation", "pair_creation_ok", "pair_creation_creator_holds_other_qubits", "pair_creation_measure_directly",
+              "md_pair_with_keep_request_in_the_same_deque", "md_pair_distinct_socket_ids", "md_pair_failing_modelled"] + ["md_pair_bases_" + a + b for a in "ZXY" for b in "ZXY"]
     ctx.obligation("failing pair creations exercised: receiver full, room / register for one more qubit only, none, measure-directly; creator holding "
-                   "other qubits; successful requests for contrast", all(ctx.coverage.get(k) for k in need_k),
+                   "other qubits; successful requests for contrast; successful measure-directly pairs in all nine pairs of sampled bases, with a "
+                   "create-and-keep request sharing the deque, with distinct socket ids", all(ctx.coverage.get(k) for k in need_k),
                    "never hit: %r" % [k for k in need_k if not ctx.coverage.get(k)])
     seen_leak = set()
     for r, probs in leak_found:
@@ -428,7 +447,7 @@ def run(ctx):
     bad_epr = F.correspond(ctx, leak_runs)
     if bad_epr and not leak_found:
         r, i = bad_epr[0]
-        if ctx.report("correspondence:C11-pair-creation", "the model of cmd_epr (EprGate.cmd_epr_keep inside TeardownNet.nstep_r) and the implementation disagree "
+        if ctx.report("correspondence:C11-pair-creation", "the model of cmd_epr (EprGate.cmd_epr_keep / cmd_epr_measure inside TeardownNet.nstep_r) and the implementation disagree "
                       "(the count oracle is satisfied on the explored scenarios)", dict(F.replay_obj(r), first_disagreeing_message=i), found_input=False):
             found = True
     ctx.obligation("oracle (several nodes): generations of pair requests, repeater gates, frees and stops in any order leave every node at (0, 0, 0, 0); "
